@@ -1,4 +1,5 @@
 """C12 - residual z-scores and p-values are adjusted standardized residuals."""
+import copy
 import math
 
 import numpy as np
@@ -36,7 +37,7 @@ SHAPES = [("cat", "cat")] * 5 + [("cat", "mr"), ("mr", "cat"), ("mr", "mr"), ("c
 def case_st(draw):
     rich = draw(st.integers(0, 3)) > 0
     sc = draw(scen.scenario_st(SHAPES, measure="none", max_n=30,
-                               weight_kinds=("none", "int", "dyadic"),
+                               weight_kinds=("none", "int", "dyadic", "tenths"),
                                min_valid=2 if rich else 1, skew=not rich,
                                min_n=8 if rich else 0))
     sv = sc["survey"]
@@ -72,9 +73,20 @@ def judge(case, rec):
     dims = apparent_dims(sv, q)
     rec.event("shape=" + "x".join(case["shape"]))
     tkeys = dims[0].keys if len(dims) == 3 else [None]
+    # weights in tenths are not exactly representable: decide which cells are 0/0 - and
+    # compute the statistic - on the same survey with every weight multiplied by ten
+    # (integers, exact); a z-score scales with the square root of the weight scale
+    scale = 1.0
+    svx = sv
+    if q.get("weighted") and sv["weights"] and any(
+            float(w * 8) != int(w * 8) for w in sv["weights"]):
+        svx = copy.deepcopy(sv)
+        svx["weights"] = [int(round(w * 10)) for w in sv["weights"]]
+        scale = math.sqrt(10.0)
+        rec.event("inexact weights")
     for part, tkey in zip(cube.partitions, tkeys):
         lib.warm(part, case.get("warmup"))
-        orc = Oracle(sv, q, table_key=tkey)
+        orc = Oracle(svx, q, table_key=tkey)
         rspecs, cspecs = _specs(part, orc, case)
         Z = np.asarray(part.zscores, dtype=float)
         P = np.asarray(part.pvals, dtype=float)
@@ -102,6 +114,8 @@ def judge(case, rec):
                 cb = None if cd else orc.col_base(rs, cs, True)
                 tb = orc.table_base(rs, cs, True)
                 z, kind = formula(cnt, rb, cb, tb)
+                if kind == "ok":
+                    z = z / scale
                 g = Z[i, j]
                 rec.compared(2)
                 if kind == "ok":
@@ -122,7 +136,7 @@ def judge(case, rec):
                         rec.violation("pvals[%d,%d] = %r outside [0,1]" % (i, j, P[i, j]),
                                       "pvalue-range")
                 else:
-                    if np.isfinite(g):
+                    if not np.isnan(g):
                         rec.violation("zscores[%d,%d] = %r although the statistic is %s "
                                       "(bases %r/%r/%r)" % (i, j, g, kind, rb, cb, tb),
                                       "finite-" + kind)
@@ -144,7 +158,7 @@ def judge(case, rec):
                     for b, ck in enumerate(orc.cols.keys):
                         g = Z[pos[("el", rk)], cpos[("el", ck)]]
                         rec.compared()
-                        if not close(g * g, chi2, rtol=1e-7, atol=1e-8):
+                        if not close(g * g, chi2 / (scale * scale), rtol=1e-7, atol=1e-8):
                             rec.violation("2x2 table: z^2 = %r but Pearson chi-square = %r" % (
                                 g * g, chi2), "chisquare")
                 rec.event("2x2 chi-square")
